@@ -119,9 +119,12 @@ class Indices(metaclass=Singleton):
         used_names = self._symbols[space][spin]
         new_idx = [idx + counter for idx in self.base[space]
                    if idx + counter not in used_names]
-        # extend the available generic indices and increment the counter
-        self._generic_indices[space][spin].extend(new_idx)
+        # increment the counter and extend the available generic indices.
+        # The counter is incremented first: if the call is interrupted in
+        # between, a generation of names is skipped instead of being added
+        # to the available indices a second time.
         self._counter[space][spin] += 1
+        self._generic_indices[space][spin].extend(new_idx)
 
     def get_indices(self, indices: str | list[str],
                     spins: str | list[str] | None = None
@@ -170,15 +173,18 @@ class Indices(metaclass=Singleton):
                 ret[key].append(symbol)
                 continue
             # not found in cache
+            # -> remove it from the available generic indices before the
+            #    symbol is cached: if the call is interrupted in between,
+            #    the name is lost but can never be handed out as generic
+            #    index after it has been used.
+            try:
+                self._generic_indices[space][spin].remove(idx)
+            except ValueError:
+                pass
             # -> create new symbol and cache it
             symbol = self._new_symbol(idx, space, spin)
             self._symbols[space][spin][idx] = symbol
             ret[key].append(symbol)
-            # -> also remove it from the available generic indices
-            try:
-                self._generic_indices[space][spin].remove(idx)
-            except ValueError:
-                continue
         return ret
 
     def get_generic_indices(self, **kwargs
